@@ -30,5 +30,6 @@ let init () =
     | "TrueAudio" -> reply Parse_headers.hdr_id (Parse_headers.trueaudio_load d)
     | "MonkeysAudio" -> reply Parse_headers.hdr_id (Parse_headers.monkeysaudio_load d)
     | "OptimFROG" -> reply Parse_headers.hdr_id (Parse_headers.optimfrog_load d)
+    | "ID3determine_bpi" -> reply Parse_id3.id3_bpi_list (Parse_id3.id3_determine_bpi d)
     | "ID3Header" -> reply Parse_id3.id3h_id (Parse_id3.id3header_load d)
     | _ -> "error unknown-loader " ^ k)
